@@ -70,6 +70,7 @@ def decoder_domain(rng, tier, pid):
     for i in range(800 if q else 10000):
         dom.append(("soup", G.random_opcode_soup(r, 1 + r.below(40))))
     dom += [("bomb", d) for d in G.length_bombs()]
+    dom += [("sweep", d) for d in G.stack_sweep()]
     dom = [(t, d) for (t, d) in dom if model_ok_input(d)]
     return dom, hist
 
@@ -195,6 +196,9 @@ def cut_positions(n, all_limit=300):
         return list(range(n))
     s = set(range(64)) | set(range(n - 64, n))
     s |= set(range(0, n, max(1, n // 64)))
+    for b in range(4096, n + 1, 4096):          # around every multiple of bufio's buffer size
+        s |= set(range(b - 12, b + 20))
+    s |= set(range(4096, min(n, 4400), 7))
     return sorted(k for k in s if 0 <= k < n)
 
 def valid_pickles(rng, tier, extra=()):
@@ -208,7 +212,12 @@ def valid_pickles(rng, tier, extra=()):
     cand += [b"S'" + big + b"'\n.", b"V" + big + b"\n.", b"I" + b"1" * 300 + b"\n.", b"L" + b"7" * 300 + b"L\n.",
              b"\x80\x05\x95" + struct.pack("<Q", 20) + b"\x96" + struct.pack("<Q", 5) + b"hello.",
              b"\x8a\xff" + b"\x01" * 255 + b".", b"\x8a\x80" + b"\x7f" * 128 + b".",
-             b"c" + big + b"\n" + big + b"\n.", b"(I1\nI2\nF1.5\nS'x'\nl.", b"P" + big + b"\n."]
+             b"c" + big + b"\n" + big + b"\n.", b"(I1\nI2\nF1.5\nS'x'\nl.", b"P" + big + b"\n.",
+             # long lines dense with escapes: almost every cut lands inside an escape sequence
+             b"V" + b"\\u0100" * 800 + b"\n.", b"V" + b"a\\U0001f600" * 500 + b"\n.",
+             b"S'" + b"\\'" * 2500 + b"'\n.", b'S"' + b'\\"\\x41\\n' * 700 + b'"\n.',
+             b"S'" + b"\\\\" * 2100 + b"'\n.", b"V" + b"\\\\u0041" * 700 + b"\n.",
+             b"(V" + b"\\u00e9" * 700 + b"\nS'" + b"\\x00" * 1100 + b"'\nt."]
     cand += [d for d in corpus_files() if model_ok_input(d)][: (300 if q else 3000)]
     return cand, hist
 
@@ -255,3 +264,183 @@ def c10(res, rng, tier):
 import props_dict
 import props_conv
 import props_enc
+
+# =============================================================================================
+# C16 — results contain only documented types, consistent with the decoder mode
+# =============================================================================================
+def undocumented_in(dump, pd, su, lm):
+    """why a dumped result violates the documented type table for this mode, or None"""
+    for t in dump.split():
+        if t.startswith("UNDOCUMENTED") or t == "MARK" or t == "NIL":
+            return "value of an undocumented type in the result: %s" % t
+        if t.startswith("z:") and su != "1": return "ByteString in a result with StrictUnicode off"
+        if t == "d{" and pd != "1": return "Dict in a result with PyDict off"
+        if t == "m{" and pd != "0": return "builtin map in a result with PyDict on"
+        if t.startswith("U:") and lm == "0": return "foreign object without PersistentLoad"
+        if t.startswith(("u:", "x:")): return "unsigned / complex value in a result"
+    return None
+
+def mark_placement_programs():
+    """MARK directly under every consuming opcode, in every operand position"""
+    out = []
+    vals = [b"K\x01", b"]", b"}", b")", b"cm\nC\n", b"X\x01\x00\x00\x00a"]
+    ops = [b"a", b"e", b"s", b"u", b"d", b"l", b"t", b"\x85", b"\x86", b"\x87", b"R", b"Q", b"\x93", b"2", b"0",
+           b"p0\n", b"q\x00", b"r\x00\x00\x00\x00", b"\x94", b".", b"\x85.", b"Q."]
+    for op in ops:
+        for a in [b""] + vals:
+            for b in [b""] + vals:
+                for where in range(3):
+                    items = [a, b]
+                    items.insert(where, b"(")
+                    out.append(b"".join(items) + op + b".")
+                    out.append(b"]" + b"".join(items) + op + b"a.")
+                    out.append(b"}K\x01" + b"".join(items) + op + b"s.")
+    return out
+
+@check("C16")
+def c16(res, rng, tier):
+    dom, hist = decoder_domain(rng, tier, "C16")
+    dom += [("markpos", d) for d in mark_placement_programs()]
+    lines, meta = [], []
+    r = rng.fork("lm")
+    for tag, d in dom:
+        for pd, su in CONFIGS:
+            lms = ["0", "1", "2", "4"] if tag in ("markpos", "kept") or b"Q" in d or b"P" in d else ["0"]
+            if tag == "sweep" and (b"Q" in d or b"P" in d): lms = ["0", "1", "2"]
+            for lm in lms:
+                lines.append("dec %s %s %s %s" % (pd, su, lm, d.hex())); meta.append((tag, d, pd, su, lm))
+    impl = C.implrun(lines)
+    model = C.modelrun(lines)
+    nontriv = 0
+    mism = 0
+    for i, (mo, io) in enumerate(zip(model, impl)):
+        tag, d, pd, su, lm = meta[i]
+        body, _, log = io.partition(" #log ")
+        bad = None
+        for p in parts(body):
+            if p.startswith("ok "):
+                bad = undocumented_in(p[3:], pd, su, lm)
+                if bad: break
+        if not bad and log:
+            bad = undocumented_in(log.replace(" ; ", " "), pd, su, "1")
+            if bad: bad = "argument passed to PersistentLoad: " + bad
+        if bad:
+            res.violation(bad, {"kind": "impl", "input_hex": d.hex(), "pydict": pd, "strict": su, "load_mode": lm,
+                                "observed": io[:500], "cmd": "echo '%s' | harness/go/implrun" % lines[i][:300]})
+            continue
+        if "#staleappend" in mo:
+            continue
+        if strip_model(mo) != io:
+            mism += 1
+            if mism <= 5:
+                res.violation("correspondence: model and implementation decode differently",
+                              {"kind": "correspondence", "input_hex": d.hex(), "pydict": pd, "strict": su, "load_mode": lm,
+                               "model": mo[:500], "impl": io[:500]}, found_input=False)
+        if any(p.startswith("ok ") for p in parts(body)):
+            nontriv += 1
+    res.coverage.update({
+        "evaluations": len(lines), "distinct_nontrivial": nontriv,
+        "rule": "C04 input stream (corpus, grammar pickles, mutations, soup, bombs, exhaustive opcode x small-stack sweep) + MARK placed under every consuming opcode in every operand position, x 4 configs x PersistentLoad {unset, keep, replace, replace-strings-only}; every successful result and every Ref handed to PersistentLoad is walked against the type whitelist of its mode; non-trivial = runs with at least one successful Decode",
+        "programs": len(lines), "disagreements_checked": len(lines), "input_tags": tag_hist(meta)})
+    res.samples = [{"input_hex": meta[i][1].hex()[:100], "cfg": meta[i][2:], "impl": impl[i][:160]}
+                   for i in range(0, len(lines), max(1, len(lines) // 6))]
+
+# =============================================================================================
+# C11 — a stream of pickles decodes one value per call, each as if it stood alone
+# =============================================================================================
+def memo_free(p):
+    """no GET-family opcode: cannot refer to memo entries of another pickle"""
+    import pickletools
+    try:
+        return not any(op.name in ("GET", "BINGET", "LONG_BINGET") for op, a, pos in pickletools.genops(p))
+    except Exception:
+        return False
+
+@check("C11")
+def c11(res, rng, tier):
+    q = tier == "quick"
+    # self-contained pickles: grammar pickles (their GETs refer to their own PUTs), plus
+    # hand-assembled memo-free programs leaving extra operands / marks behind, plus errors at the last byte
+    # (MEMOIZE keys depend on how many entries earlier pickles left in the shared memo - in CPython
+    #  too - so a pickle that fetches what it MEMOIZEd is not self-contained inside a stream)
+    gen, hist = gen_pickles(rng.fork("gen"), 600 if q else 8000, allow_memoize=False)
+    hand = [b"K\x01K\x02.", b"K\x01K\x02K\x03.", b"(K\x01.", b"((K\x05.", b"]K\x01.", b"\x80\x03N.", b"\x80\x05K\x07.", b".",
+            b"K\x01\x85K\x02.", b"\x80\x02}.", b"(.", b"N0.", b"K\x01\xff", b"\x80\x09", b"I1\nK\x02.",
+            b"\x80\x01c__builtin__\nbytearray\nC\x02ab\x85R.", b"c__builtin__\nbytearray\nC\x02ab\x85R.",
+            b"\x80\x03cbuiltins\nbytearray\nC\x02ab\x85R.", b"cbuiltins\nbytearray\nC\x02ab\x85R.",
+            b"\x96\x0c\x00\x00\x00\x00\x00\x00\x00hello, world.", b"U\x08XXXXXXXX.", b"C\x05abcde.", b"T\x03\x00\x00\x00xyz.",
+            b"\x8c\x04wxyz.", b"B\x02\x00\x00\x00pq.", b"\x96\x02\x00\x00\x00\x00\x00\x00\x00zz.", b"X\x03\x00\x00\x00abc.",
+            b"]q\x00K\x01a.", b"}q\x01K\x01K\x02s.", b"]\x94(K\x01K\x02e."]
+    pool = gen + hand * 8
+    r = rng.fork("streams")
+    streams = []
+    for _ in range(1500 if q else 20000):
+        n = 1 + r.below(8)
+        streams.append([r.choice(pool) for _ in range(n)])
+    # every ordered pair of the hand-assembled ones (state left behind by the first)
+    for a in hand:
+        for b in hand:
+            streams.append([a, b])
+    lines, meta = [], []
+    singles = {}
+    for s in streams:
+        for pd, su in CONFIGS:
+            lines.append("dec %s %s 0 %s" % (pd, su, b"".join(s).hex())); meta.append((s, pd, su))
+            for p in s:
+                singles[(p, pd, su)] = None
+    skeys = list(singles)
+    slines = ["dec %s %s 0 %s" % (pd, su, p.hex()) for (p, pd, su) in skeys]
+    impl = C.implrun(lines + slines)
+    model = C.modelrun(lines + slines)
+    for k, o in zip(skeys, impl[len(lines):]):
+        singles[k] = parts(o)
+    nontriv = 0
+    mism = 0
+    for i in range(len(lines)):
+        s, pd, su = meta[i]
+        io, mo = impl[i], model[i]
+        got = parts(io)
+        # expected: each pickle's own first result (its value, or its error if that error is
+        # raised exactly at its last byte), then io.EOF
+        want, ok_expect = [], True
+        for p in s:
+            alone = singles[(p, pd, su)]
+            first = alone[0]
+            # a pickle is self-contained for this purpose if decoding it alone consumes it exactly:
+            # ok | eof, or err | eof
+            if len(alone) != 2 or alone[1] != "err eof":
+                ok_expect = False
+                break
+            want.append(first)
+        if not ok_expect:
+            continue
+        want.append("err eof")
+        if got != want:
+            k = next((j for j in range(min(len(got), len(want))) if got[j] != want[j]), min(len(got), len(want)))
+            res.violation("stream of %d pickles: call %d returns %s, the pickle alone gives %s"
+                          % (len(s), k + 1, (got[k] if k < len(got) else "nothing")[:120], (want[k] if k < len(want) else "nothing")[:120]),
+                          {"kind": "impl", "pickles_hex": [p.hex() for p in s], "pydict": pd, "strict": su,
+                           "stream": io[:600], "alone": want[:12], "cmd": "echo '%s' | harness/go/implrun" % lines[i][:400]})
+            continue
+        if "#staleappend" not in mo and strip_model(mo) != io:
+            mism += 1
+            if mism <= 5:
+                res.violation("correspondence: model and implementation differ on a stream",
+                              {"kind": "correspondence", "pickles_hex": [p.hex() for p in s], "pydict": pd, "strict": su,
+                               "model": mo[:500], "impl": io[:500]}, found_input=False)
+        nontriv += 1
+    # values already returned are not altered by later Decode calls: implrun keeps every value and
+    # dumps them all AFTER the last call; compared with dumps taken right after each call
+    alines = ["decstable %s %s %s" % (pd, su, b"".join(s).hex()) for (s, pd, su) in meta[::2]]
+    ares = C.implrun(alines)
+    for j, o in enumerate(ares):
+        if o != "stable":
+            s, pd, su = meta[::2][j]
+            res.violation("a value returned by an earlier Decode call was altered by a later call: %s" % o[:200],
+                          {"kind": "impl", "pickles_hex": [p.hex() for p in s], "pydict": pd, "strict": su, "observed": o[:600],
+                           "cmd": "echo '%s' | harness/go/implrun" % alines[j][:400]})
+    res.coverage.update({
+        "evaluations": len(lines) + len(slines) + len(alines), "distinct_nontrivial": nontriv,
+        "rule": "streams of 1..8 self-contained pickles (grammar pickles at mixed protocols, hand-assembled memo-free programs leaving extra operands / marks / a protocol number / buffer contents behind, pickles failing at their last byte) + all ordered pairs of the hand-assembled ones, x 4 configs; each call compared with the same pickle decoded alone; earlier results re-dumped after the last call; non-trivial = streams whose every call matched",
+        "programs": len(lines), "disagreements_checked": len(lines), "opcode_histogram_generated": hist})
+    res.samples = [{"pickles_hex": [p.hex()[:40] for p in meta[i][0]], "impl": impl[i][:160]} for i in range(0, len(lines), max(1, len(lines) // 6))]
